@@ -48,7 +48,11 @@ def identity(pc: Sequence[T], a: T, b: T, timeout_s: float = 20.0) -> Tuple[bool
     t0 = time.time()
     try:
         with deadline(max(0.5, timeout_s)):
-            return _identity(pc, a, b)
+            ok, why = _identity(pc, a, b, split=False)
+            if ok:
+                return ok, why
+            # second attempt with sqrt(u^2 w) = |u| sqrt(w) extraction (factorisation + sign queries)
+            return _identity(pc, a, b, split=True)
     except Timeout:
         if expired_here(t0, max(0.5, timeout_s)):
             return False, "poly: timeout"
@@ -138,7 +142,7 @@ def _hyp_substitution(pc, goal: T):
     return g, len(mapping)
 
 
-def _identity(pc, a: T, b: T):
+def _identity(pc, a: T, b: T, split: bool = True):
     goal = tm.sub(a, b)
     goal, n_hyp = _hyp_substitution(pc, goal)
     # equality hypotheses from the path condition that define a variable-free relation are
@@ -315,7 +319,7 @@ def _identity(pc, a: T, b: T):
                     # sqrt(u² · w) = |u| · sqrt(w) when the sign of u follows from the path condition
                     done_split = False
                     # (a) a multiple of an older atom's radicand by a small square factor (scaled copies)
-                    for okey, oname in list(seen.items()):
+                    for okey, oname in (list(seen.items()) if split else []):
                         if oname not in red or len(rad.numer.terms()) > 4000:
                             continue
                         try:
@@ -330,7 +334,7 @@ def _identity(pc, a: T, b: T):
                                     subst[n] = spq[0] * gens[oname] * sgn
                                     done_split = True
                                     break
-                    sp = _square_split(rad, K) if not done_split else None
+                    sp = _square_split(rad, K) if (split and not done_split) else None
                     if sp is not None:
                         outer, inner = sp
                         sgn = _sign_of(outer, pc, names, term_of)
